@@ -4,6 +4,7 @@ import (
 	"fmt"
 	"go/token"
 	"go/types"
+	"unicode/utf8"
 
 	"golang.org/x/tools/go/ssa"
 )
@@ -69,7 +70,20 @@ func symConv(t_dst, t_src types.Type, x value) (value, bool) {
 		}
 		panic(unsupported(fmt.Sprintf("conv symInt to %v", t_dst)))
 	case sstring:
-		if _, ok := t_dst.Underlying().(*types.Slice); ok {
+		if sl, ok := t_dst.Underlying().(*types.Slice); ok {
+			if b, ok := sl.Elem().Underlying().(*types.Basic); ok && b.Kind() == types.Int32 {
+				// []rune(s): decode; symbolic bytes must be ASCII, concrete ones may be multi-byte
+				var out []value
+				it := &sstringIter{s: x}
+				for {
+					t := it.next()
+					if !t[0].(bool) {
+						break
+					}
+					out = append(out, t[2])
+				}
+				return out, true
+			}
 			return append([]value{}, x.b...), true
 		}
 		if kindOf(t_dst) == types.String {
@@ -102,6 +116,24 @@ func (it *sstringIter) next() tuple {
 	}
 	okv[0] = true
 	okv[1] = it.i
+	// a concrete multi-byte sequence (all of its bytes concrete) decodes as usual
+	if c, ok := it.s.b[it.i].(byte); ok && c >= 0x80 {
+		var buf []byte
+		for j := it.i; j < len(it.s.b) && j < it.i+4; j++ {
+			cb, ok := it.s.b[j].(byte)
+			if !ok {
+				break
+			}
+			buf = append(buf, cb)
+		}
+		r, size := utf8.DecodeRune(buf)
+		if r == utf8.RuneError && size <= 1 {
+			panic(unsupported("invalid or partly symbolic UTF-8 sequence in a string with symbolic bytes"))
+		}
+		okv[2] = r
+		it.i += size
+		return okv
+	}
 	okv[2] = asciiRune(it.s.b[it.i])
 	it.i++
 	return okv
